@@ -233,19 +233,14 @@ Proof.
 Qed.
 
 (* 5. LEAK-PRONE PRIMITIVE OPERATIONS (refuted / partial): operations of the reachable functions whose runtime
-      exception no try statement on the way out converts.  Witnesses: the next() of Fill._parse_matrix reached from
-      the constructors (`fill 4 :56 59 59`: StopIteration is not among the classes parse_input converts) and the
-      subscript of the per-cell data list in Importance.push_to_cells during the pointer update (three cells,
-      `imp:n 1 1`: IndexError). *)
+      exception no try statement on the way out converts.  Since 2747fab nothing of the kind is left in the
+      per-input phase except assert / next inside the parser actions; the witness is in the pointer update: the
+      subscript of the per-cell data list in Importance.push_to_cells (three cells, `imp:n 1 1`: IndexError). *)
 Theorem C13_primitive_leaks_refuted :
-  leaks_primitive gen_tables "construct" "data_inputs/fill.py:Fill._parse_matrix" Next "StopIteration" /\
   leaks_primitive gen_tables "cells_modifiers" "data_inputs/importance.py:Importance.push_to_cells" Subscript "IndexError".
 Proof.
-  split.
-  - destruct (find_prim_leak gen_tables "construct" "data_inputs/fill.py:Fill._parse_matrix" Next "StopIteration") eqn:F;
-      [eapply find_prim_leak_sound; exact F | vm_compute in F; discriminate].
-  - destruct (find_prim_leak gen_tables "cells_modifiers" "data_inputs/importance.py:Importance.push_to_cells" Subscript "IndexError") eqn:F;
-      [eapply find_prim_leak_sound; exact F | vm_compute in F; discriminate].
+  destruct (find_prim_leak gen_tables "cells_modifiers" "data_inputs/importance.py:Importance.push_to_cells" Subscript "IndexError") eqn:F;
+    [eapply find_prim_leak_sound; exact F | vm_compute in F; discriminate].
 Qed.
 Print Assumptions C13_primitive_leaks_refuted.
 
